@@ -195,4 +195,6 @@ def run(ctx):
     rep.floor('R08.3', 'dummy records', n_dummy, 4 * ns)
     from rules import profile
     profile.check(ctx, rep, 'R08.P', ['slog_start', 'setup_new_with_key'])
+    from rules import lclone
+    lclone.check(ctx, rep, 'R08.C')
     return rep
